@@ -59,6 +59,15 @@ deriving Repr
 inductive Res | ok | err
 deriving DecidableEq, Repr
 
+/-- `Persist::update_node`: rewrites the whole `NodeStateEntry` — approved invoices, velocity control,
+    high-water mark.  Which `NodeState` fields that entry holds is read from the source
+    (`Gen/PersistConv.nodeSave`; `Props/C11.C11_gen_model_update_node` pins this definition to it). -/
+def Core.updateNode (disk mem : Core) : Core :=
+  { disk with vc := mem.vc, invoices := mem.invoices, hwm := mem.hwm }
+
+/-- `Persist::update_node_allowlist`: the allowlist has a store entry of its own -/
+def Core.updateAllowlist (disk mem : Core) : Core := { disk with allow := mem.allow }
+
 def insertSorted (x : Nat) : List Nat → List Nat
   | [] => [x]
   | y :: ys => if x < y then x :: y :: ys else if x = y then y :: ys else y :: insertSorted x ys
@@ -82,7 +91,7 @@ def allowlistOp (s : St) (op : AlOp) (entries : List (Option Nat)) : St × Res :
       | .rm  => s.mem.allow.filter (fun y => !xs.contains y)
     let mem := { s.mem with allow := a }
     -- update_node_allowlist
-    ({ s with mem := mem, disk := { s.disk with allow := a } }, .ok)
+    ({ s with mem := mem, disk := s.disk.updateAllowlist mem }, .ok)
 
 /-- `add_keysend` with a fresh payment hash (`dup = false`) or the previous one (`dup = true`).
     Velocity refusal is `Ok(false)`: not an error, nothing persisted (buckets shifted in memory only). -/
@@ -98,7 +107,7 @@ def keysend (c : Cfg) (s : St) (amt : Nat) (dup : Bool) : Option (St × Res) :=
       let mem := { s.mem with vc := v, invoices := s.mem.invoices + 1 }
       -- update_node: the whole NodeStateEntry
       some ({ s with mem := mem, lastPresent := true,
-                     disk := { s.disk with vc := mem.vc, invoices := mem.invoices, hwm := mem.hwm } }, .ok)
+                     disk := s.disk.updateNode mem }, .ok)
 
 def newChannel (c : Cfg) (s : St) (dbid : Nat) : St × Res :=
   if dbid ≤ s.mem.hwm then (s, .err)                            -- policy-channel-original-channel-id-reuse
@@ -121,12 +130,12 @@ def forgetChannel (c : Cfg) (s : St) (w : Nat) : St × Res :=
     let hwm := max s.mem.hwm id
     let mem := { s.mem with forgetFlag := true, hwm := hwm }
     -- chan.forget() persists the channel entry; update_node if the mark rose; then update_tracker
-    let disk1 := if s.mem.hwm < id then { s.disk with vc := mem.vc, invoices := mem.invoices, hwm := mem.hwm } else s.disk
+    let disk1 := if s.mem.hwm < id then s.disk.updateNode mem else s.disk
     ({ s with mem := mem, disk := { disk1 with forgetFlag := true } }, .ok)
   else if s.mem.stubs.contains id then
     let hwm := max s.mem.hwm id
     let mem := { s.mem with stubs := s.mem.stubs.filter (· != id), hwm := hwm }
-    let disk1 := if s.mem.hwm < id then { s.disk with vc := mem.vc, invoices := mem.invoices, hwm := mem.hwm } else s.disk
+    let disk1 := if s.mem.hwm < id then s.disk.updateNode mem else s.disk
     ({ s with mem := mem, disk := { disk1 with stubs := disk1.stubs.filter (· != id) } }, .ok)
   else (s, .ok)                                                  -- "forget_channel didn't find": Ok, nothing
 
